@@ -106,6 +106,9 @@ func (m *model) Check() (tags []string, viol []xstate.Violation, err error) {
 	lastKind := "init"
 	if n := len(m.applied); n > 0 {
 		lastKind, _ = parse(m.applied[n-1])
+		if lastKind == "reopen" && m.reopenDiscarded {
+			lastKind = "reopen-discarding-pending-operation"
+		}
 	}
 	// "later edits made through the cache build on the merged history": the probe edits through
 	// the cache right after the pull, before anything else has gone through the cache (reading
@@ -151,6 +154,9 @@ func (m *model) Check() (tags []string, viol []xstate.Violation, err error) {
 				continue
 			}
 			sig := queryClass(k) + "/after-" + lastKind
+			if m.tainted[x] && lastKind != "reopen-discarding-pending-operation" {
+				sig += "/cache-closed-with-pending-operation-earlier"
+			}
 			if seen[sig] {
 				continue
 			}
